@@ -25,7 +25,7 @@ from unyt.unit_object import Unit
 # ---- operand kinds ------------------------------------------------------------------------------------
 KINDS = ["same", "other", "diff", "dimless", "pct", "bscalar", "barray", "zero", "qlist", "empty", "qmixlist", "zeroq", "zeroqlist"]
 # (anchor unit, other unit of the same dimension, unit of a different dimension)
-DIM_TRIPLES_QUICK = [("m", "km", "s"), ("m", "cm", "erg"), ("g", "kg", "degree"), ("K", "R", "m"), ("A", "mA", "s"), ("G", "mG", "kg")]  # the last two: SI and Gaussian electromagnetic atoms (a conversion branch of their own)
+DIM_TRIPLES_QUICK = [("m", "km", "s"), ("m", "cm", "erg"), ("g", "kg", "degree"), ("K", "R", "m"), ("A", "mA", "s"), ("G", "mG", "kg"), ("degC", "degF", "s")]  # A, G: SI and Gaussian electromagnetic atoms (a conversion branch of their own); degC: scales with a zero point (branches of their own in reduce(initial=), add, subtract)
 SHAPES = ["scalar", "array", "bcast"]
 
 VALS_A = [1.5, -2.25, 3.0]
@@ -388,7 +388,7 @@ def eval_case(ctx, op, lk, rk, triple, shape, seed=0):
         out = ("raise", type(e).__name__)
     ax, ay = snap(x), snap(y)
     case = {"op": name, "form": form, "left": lk, "right": rk, "triple": list(triple), "shape": shape}
-    temp = "temperature" if "K" in triple[:2] else "generic"
+    temp = "temperature" if "K" in triple[:2] else ("offset-scale" if "degC" in triple[:2] else "generic")
     base = f"C01|{klass}|op={name}|form={form}|left={lk}|right={rk}|dims={temp}"
     ctx.outcome((name, form, lk, rk, out, v))
     # right operand (and left unless it is the in-place target) must be bit-identical afterwards
